@@ -81,7 +81,7 @@ def family(pid, tier, seed):
         for g in curated_core(rng, with_tokens=True):
             if g["id"] == "b0":
                 continue   # (loops that spin to the iteration limit: exercised by C01 with its own inputs)
-            if g["id"] in ("x0", "x1"):
+            if g["id"] in ("x0", "x1", "x8"):
                 g["explicit"] = True   # they name an elided type: judged against the meaning, with the inputs they come with
                 gs.append(g)
                 continue
@@ -117,7 +117,7 @@ def family(pid, tier, seed):
             GG.exhaustive_inputs(g, exh, seen)
             GG.random_inputs(g, rng, rnd, 9, seen)
             gs.append(g)
-        gs += [g for g in curated_core(rng, with_tokens=False) if g["id"] in ("u0", "u1", "x2", "x3")]
+        gs += [g for g in curated_core(rng, with_tokens=False) if g["id"] in ("u0", "u1", "x2", "x3", "x6", "x7")]
         # the same production tried at two raw positions that differ only by an explicitly consumed elided token (equal
         # non-elided cursors), first failing and then matching
         cap = lambda f, fk, kid: {"op": "cap", "f": f, "fk": fk, "kid": kid}
@@ -192,6 +192,10 @@ def curated_c11(rng):
     gs.append(mk_grammar("c3", [("P0", grp("plus", cap("Items", "nodes", prod("P1"))), [F("Items", "nodes", "P1")]),
                                ("P1", seq(cap("Name", "string", ref("Ident")), cap("W", "unode", {"op": "user"})), [F("Name", "string"), F("W", "unode")])], with_pos=True))
     gs.append(mk_grammar("c4", [("P0", seq(grp("star", cap("Ws", "unodes", {"op": "user"}))), [F("Ws", "unodes")])], with_pos=True))
+    # a node that matches an explicit EOF reference after a swallowed attempt that had run into EOF; trailing elided text
+    gs.append(mk_grammar("c6", [("P0", seq(cap("A", "node", prod("P1")), grp("once", {"op": "alt", "kids": [seq(lit("!"), lit("(")), lit("!")]}), cap("E", "node", prod("P2"))), [F("A", "node", "P1"), F("E", "node", "P2")]),
+                               ("P1", cap("N", "string", ref("Ident")), [F("N", "string")]),
+                               ("P2", cap("Z", "string", ref("EOF")), [F("Z", "string")])], with_pos=True, ks=(0, 1, 2, -1), trailing=True))
     # nodes that consume nothing but explicitly matched elided tokens (doc comments)
     gs.append(mk_grammar("c5", [("P0", seq(grp("star", cap("Docs", "nodes", prod("P1"))), cap("Name", "string", ref("Ident")), grp("star", cap("After", "nodes", prod("P1")))), [F("Docs", "nodes", "P1"), F("Name", "string"), F("After", "nodes", "P1")]),
                                ("P1", cap("C", "string", ref("Comment")), [F("C", "string")])], with_pos=True))
@@ -240,6 +244,13 @@ def curated_core(rng, with_tokens=True):
     # an optional group whose body can match without consuming anything ([ "a"? "b"? ]): an empty match is a match
     gs.append(mk_grammar("x4", [("P0", seq(lit("("), grp("opt", seq(grp("opt", cap("A", "string", lit("a"))), grp("opt", cap("B", "string", lit("b"))))), cap("C", "strings", grp("once", grp("star", ref("Ident")))), lit(")")),
                                  [F("A", "string"), F("B", "string"), F("C", "strings")])], ks=(0, 1, -1)))
+    # captured literals on a case-insensitive token type: the capture is the TOKEN's text, in its own casing
+    gs.append(mk_grammar("x5", [("P0", seq(grp("plus", cap("W", "strings", grp("once", alt(lit("a"), lit("b", "Ident"), lit("Xy"))))), grp("opt", cap("S", "string", lit("q", "Ident")))), [F("W", "strings"), F("S", "string")])], ci=True, ks=(0, 1, -1)))
+    # the "!" (non-empty) modifier is not a choice point of its own: a failure inside it counts from the enclosing choice
+    gs.append(mk_grammar("x6", [("P0", cap("A", "string", grp("once", alt(seq(lit("a"), grp("nonempty", grp("once", seq(lit("b"), lit("("))))), seq(lit("a"), lit("b"), lit(")"))))), [F("A", "string")])], ks=(0, 1, 2, 3, -1)))
+    gs.append(mk_grammar("x7", [("P0", seq(grp("opt", grp("nonempty", grp("once", alt(seq(lit("a"), lit("b"), cap("X", "strings", lit("("))), seq(cap("X", "strings", lit("a")), lit("b"), lit(")")))))), grp("star", cap("R", "strings", grp("once", alt(ref("Ident"), lit("("), lit(")")))))), [F("X", "strings"), F("R", "strings")])], ks=(0, 1, 2, 3, -1)))
+    # an explicitly named elided type as the FIRST element of an alternative
+    gs.append(mk_grammar("x8", [("P0", grp("plus", grp("once", alt(cap("C", "strings", ref("Comment")), cap("I", "strings", ref("Ident")), seq(lit("("), cap("D", "strings", ref("Comment")))))), [F("C", "strings"), F("I", "strings"), F("D", "strings")])], ks=(0, 1, -1)))
     # a union in an optional / repeated position whose earlier member fails beyond the lookahead
     gs.append(mk_grammar("u0", [("P0", seq(grp("opt", cap("H", "union", {"op": "union", "u": "U0"})), grp("star", cap("R", "strings", grp("once", alt(ref("Ident"), lit("("), lit(")")))))), [F("H", "union", "U0"), F("R", "strings")]),
                                  ("P1", seq(lit("a"), lit("b"), cap("X", "string", lit("("))), [F("X", "string")]),
@@ -256,8 +267,12 @@ def curated_core(rng, with_tokens=True):
     # explicit EOF
     gs.append(mk_grammar("e0", [("P0", seq(grp("plus", cap("W", "strings", ref("Ident"))), grp("once", alt(lit(";"), ref("EOF")))), [F("W", "strings")])], trailing=True))
     gs.append(mk_grammar("e1", [("P0", seq(cap("A", "string", ref("Ident")), grp("opt", cap("B", "strings", ref("Int"))), grp("once", alt(seq(lit("!"), ref("EOF")), ref("EOF"), lit("(")))), [F("A", "string"), F("B", "strings")])], trailing=True, ks=(0, 1, -1)))
+    extra_inputs = {"x5": ["A b", "a B Xy", "XY xy A", "A Q", "b q", "B b a A"], "x6": ["a b )", "a b (", "a b", "a b ( )"],
+                    "x7": ["a b ) x", "a b ( x", "a b", "a b ) ( )", "x"], "x8": ["#k# x #c#", "x", "#k#", "( #k# x", " #a##b# x ( #c#"]}
     for g in gs:
         seen = set()
+        for s_ in extra_inputs.get(g["id"], []):
+            GG.add_input(g, s_, seen)
         terms = [t for t in GG.grammar_terms(g)] + ["y"]
         import itertools
         for n in range(0, 4):
@@ -308,6 +323,8 @@ def leak_family(rng, quick):
     combos += [("big_" + m, "none", "strings") for m in ("alt", "opt", "look")]
     # a + group at the head of an enclosing optional / repeated group, its FIRST iteration failing after a capture
     combos += [(c, n, k) for c in ("optplus", "starplus") for n in ("none", "complete") for k in ("string", "strings", "bool")]
+    # a Token / []Token capture wrapping a choice whose abandoned attempt explicitly matched an elided token first
+    combos += [("tokchoice", "none", k) for k in ("token", "tokens")]
     # captures INSIDE the operand of a negation that matches several tokens and then fails
     combos += [("negcap", n, k) for n in ("none", "complete") for k in ("string", "strings", "bool")]
     for idx, (cp, nested, kind) in enumerate(combos):
@@ -376,6 +393,10 @@ def leak_family(rng, quick):
             rep_ = grp(m, cap("A", kind, grp("once", seq(ref("Ident"), lit("!")))))
             body = seq(rep_, cont) if m != "plus" else {"op": "alt", "kids": [seq(rep_, lit(";")), cont]}
             prods_extra = []
+        elif cp == "tokchoice":
+            fields0 = [{"name": "A", "kind": kind, "arg": ""}, {"name": "C", "kind": "string", "arg": ""}]
+            body = seq(cap("A", kind, grp("once", {"op": "alt", "kids": [seq(ref("Comment"), ref("Ident"), lit("!")), seq(ref("Ident"), lit("?")), seq(grp("opt", ref("Comment")), ref("Ident"), lit("("))]})), grp("opt", cont))
+            prods_extra = []
         elif cp in ("optplus", "starplus"):
             body = seq(grp("opt" if cp == "optplus" else "star", seq(grp("plus", attempt), lit(";"))), cont)
         elif cp == "negcap":
@@ -419,7 +440,8 @@ def leak_family(rng, quick):
                     GG.add_input(g, " ".join(["z"] + ts), seen)
         for ts in (["x", "(", "y", "(", "7"], ["x", "(", "y", "(", "(", "z"], ["(", "y", "(", "7"], ["x", "(", "7"], ["x", "(", "y", "("], ["(", "y", "(", "z", "(", ")"]):
             GG.add_input(g, " ".join(ts), seen)
-        for ts in (["x", "x", "x", "?"], ["x", "x", "!"], ["x", "x", "x", "x", "x", "?"], ["?"], ["x", "w"], ["7"], ["x", "?"], ["-", "7", "!"], ["-", "!"], ["!"], ["-", "x"], ["-", "7", "?"],
+        for ts in (["#k#", "x", "?"], ["#k#", "x", "!"], ["#k#", "#c#", "x", "("], ["x", "?", "w"],
+                   ["x", "x", "x", "?"], ["x", "x", "!"], ["x", "x", "x", "x", "x", "?"], ["?"], ["x", "w"], ["7"], ["x", "?"], ["-", "7", "!"], ["-", "!"], ["!"], ["-", "x"], ["-", "7", "?"],
                    ["x", "w", "!", "u"], ["x", "!", "w"], ["x", "!", "w", "!", "u"], ["x", "!", "w", "?"], ["x", "w", "!", "u", "v"], ["x", "!", "w", "!", ";"]):
             GG.add_input(g, " ".join(ts), seen)
         GG.random_inputs(g, rng, 20 if quick else 80, 7, seen, seps=(" ", " ", "  "))
